@@ -80,3 +80,9 @@ hs!(h_empty_writers, sc_empty_writers, 1, 12);
 h!(h_size_calc, sc_size_calc, 4, 42);
 hs!(h_dec_bytes, sc_dec_bytes, 5, 12);
 hs!(h_dec_opt_res, sc_dec_opt_res, 4, 12);
+h!(h_leaf_8, sc_leaf_8, 1, 42);
+h!(h_leaf_16, sc_leaf_16, 2, 42);
+h!(h_leaf_32, sc_leaf_32, 4, 42);
+h!(h_leaf_64, sc_leaf_64, 8, 42);
+h!(h_leaf_128, sc_leaf_128, 16, 42);
+h!(h_leaf_bool, sc_leaf_bool, 1, 42);
